@@ -137,10 +137,12 @@ def runs_c12(tier):
         S.suite_inverse(g, n(tier, 60, 800), big=True)
         S.suite_solve(g, n(tier, 100, 1200), big=True)
         S.suite_ple_recursive(g, n(tier, 14, 150))      # block-recursive PLE regime of the small-cache configurations
-    cfgs = [DEF, SC, SC_NOSSE, MID, B.thread_safe(SC), dict(SC, l1=4096, l2=262144, l3=1048576)]
+    # a last-level cache of 768 MiB (large server parts): cache-size arithmetic beyond 2^29 bytes
+    HUGE = dict(DEF, l2=2097152, l3=805306368)
+    cfgs = [DEF, SC, SC_NOSSE, MID, B.thread_safe(SC), dict(SC, l1=4096, l2=262144, l3=1048576), HUGE]
     if tier != Q:
         cfgs += [DEF_NOSSE, B.thread_safe(DEF), dict(DEF, l1=4096), dict(MID, sse2=0), dict(SC, l2=65536),
-                 B.with_openmp(SC), B.with_openmp(DEF)]
+                 B.with_openmp(SC), B.with_openmp(DEF), dict(DEF, l2=4194304, l3=1 << 30), dict(DEF, l2=4194304, l3=1 << 32)]
     # identical seeded cases under every configuration (the check driver seeds per run index, so force one seed)
     return [(c, None, s, [], 'same-seed') for c in cfgs]
 
